@@ -549,7 +549,11 @@ func (fr *Frame) val(v ssa.Value) *Term {
 	case *ssa.Global:
 		enc.unsup("%s: address of global %s used as a value", fr.fn.Name(), x.Name())
 	}
-	if _, ok := fr.lvals[v]; ok {
+	if lv, ok := fr.lvals[v]; ok {
+		// the address of the first field of an object is the address of the object
+		if lv.Kind == lvField && lv.Idx == 0 && lv.Parent.Kind == lvRef {
+			return lv.Parent.Ref
+		}
 		enc.unsup("%s: interior pointer %s used as a value", fr.fn.Name(), v.Name())
 	}
 	if _, ok := fr.tuples[v]; ok {
